@@ -20,7 +20,7 @@ IDENTITY_CALLS = (
     "Option::<T>::copied", "Result::<T, E>::map_err", "Option::<T>::ok_or", "Option::<T>::ok_or_else",
     "Result::<T, E>::ok", "Option::<T>::as_deref", "Result::<T, E>::as_deref", "::vec::Vec<T, A>::as_slice",
     "::string::String::as_str", "::iter::IntoIterator>::into_iter", "slice::<impl [T]>::iter",
-    "Option::<&T>::cloned", "Option::<&T>::copied", "Option::<T>::take", "<impl [T; N]>::as_slice", "Vec::<T, A>::as_slice",
+    "Option::<&T>::cloned", "Option::<&T>::copied", "Option::<T>::take", "<impl [T; N]>::as_slice", "Vec::<T, A>::as_slice", "impl std::clone::Clone for ",
 )
 UNWRAP_CALLS = ("Result::<T, E>::unwrap", "Result::<T, E>::expect", "Option::<T>::unwrap",
                 "Option::<T>::expect", "Option::<T>::unwrap_or", "Result::<T, E>::unwrap_or")
